@@ -24,7 +24,8 @@ std::string gen_token(Rng &r, size_t minlen, size_t maxlen, int cls) {
     for (size_t i = 0; i < n; i++) {
         if (cls == 0) s.push_back(safe[r.below(sizeof safe - 1)]);
         else if (cls == 1) s.push_back((char)r.range(32, 126));
-        else { unsigned char c; do c = (unsigned char)r.range(1, 255); while (c == '\n'); s.push_back((char)c); }
+        else if (cls == 2) { unsigned char c; do c = (unsigned char)r.range(1, 255); while (c == '\n'); s.push_back((char)c); }
+        else s.push_back(r.chance(1, 6) ? '\n' : (char)r.range(1, 255));   // any byte but NUL: only where no configuration line is built from it
     }
     return s;
 }
@@ -95,7 +96,7 @@ World gen_world(Rng &r) {
     case 0: break;                                                        // empty
     case 1: w.environ_null = true; break;                                 // after clearenv()
     case 2: { size_t n = (size_t)r.range(100, 600); for (size_t i = 0; i < n; i++) w.env.push_back("V" + std::to_string(i) + "=" + gen_token(r, 0, 20, 0)); break; }
-    default: { size_t n = (size_t)r.range(1, 12); for (size_t i = 0; i < n; i++) w.env.push_back("K" + std::to_string(i) + "=" + gen_token(r, 0, 30, (int)r.below(3))); }
+    default: { size_t n = (size_t)r.range(1, 12); for (size_t i = 0; i < n; i++) w.env.push_back("K" + std::to_string(i) + "=" + gen_token(r, 0, 30, (int)r.below(4))); }
     }
     if (!w.environ_null) {
         if (r.chance(1, 3)) w.env.push_back("SUDO_USER=sudoer" + std::to_string(r.below(9)));
@@ -127,8 +128,8 @@ void gen_outcome(Rng &r, ExecOp &e, bool allow_success) {
 ExecOp gen_exec(Rng &r, const std::string &marker, int size_class) {
     ExecOp e;
     e.api = (int)r.below(2);
-    int cls = (int)r.below(3);
-    e.path = r.chance(1, 12) ? "" : "/bin/" + marker + gen_token(r, 0, size_class >= 2 ? 300 : 12, cls == 2 ? 2 : 0);
+    int cls = r.chance(1, 8) ? 3 : (int)r.below(3);
+    e.path = r.chance(1, 12) ? "" : "/bin/" + marker + gen_token(r, 0, size_class >= 2 ? 300 : 12, cls >= 2 ? cls : 0);
     switch (r.below(size_class >= 3 ? 10 : 8)) {
     case 0: e.argv_null = true; break;
     case 1: break;                                         // { NULL }
